@@ -1339,3 +1339,22 @@ def known_finding_witnesses(sess):
         mh = sess.model(kind)
         teams = [[mh.m.rating(40.0, 3.0)], [mh.m.rating(40.0, 3.0)], [mh.m.rating(10.0, sw)]]
         sess.rate(mh, teams, ranks=[3, 2, 1])
+
+
+def foreign_pairs(sess, rng):
+    """Every ordered pair (host model, foreign model): a foreign rating in a player slot, four operations."""
+    for host in KINDS:
+        for foreign in KINDS:
+            if foreign == host:
+                continue
+            for op in ("rate", "win", "draw", "rank"):
+                sess.reset()
+                mh = sess.model(host)
+                fm = sess.model(foreign)
+                teams = [[mh.m.rating(25.0, 8.0)], [mh.m.rating(30.0, 4.0), fm.m.rating(20.0, 5.0)]]
+                if rng.random() < 0.5:
+                    teams = [[fm.m.rating(20.0, 5.0)], [mh.m.rating(30.0, 4.0)]]
+                if op == "rate":
+                    sess.rate(mh, teams)
+                else:
+                    sess.predict(op, mh, teams)
